@@ -223,7 +223,7 @@ fn hot_spans(h: &History) -> Vec<(usize, usize)> {
 /// size, and equal to the sequential build — for valid files and for their
 /// fault-corrupted variants alike.
 pub fn c08_schedules(ctx: &Ctx, out: &mut RunOut) -> Result<(), Violation> {
-    for k in ["files-with-shared-container-length", "mode-t-loads", "mode-t-loads-with-allocation-preemption", "allocation-point-preemptions", "mode-t-loads-stalled-and-discarded", "files-with-all-orders-enumerated", "orders-enumerated-exhaustively", "baton-choice-at-contended-lock", "big-object-stream-docs", "image-fault-corrupted"] {
+    for k in ["rootless-histories-with-several-catalogs", "files-with-shared-container-length", "mode-t-loads", "mode-t-loads-with-allocation-preemption", "allocation-point-preemptions", "mode-t-loads-stalled-and-discarded", "files-with-all-orders-enumerated", "orders-enumerated-exhaustively", "baton-choice-at-contended-lock", "big-object-stream-docs", "image-fault-corrupted"] {
         ctx.count_n(k, 0); // registered so that a probe that never fires shows up as zero in the evidence
     }
     let mut h = gen_history(ctx, 3, true, false, false);
@@ -237,6 +237,21 @@ pub fn c08_schedules(ctx: &Ctx, out: &mut RunOut) -> Result<(), Violation> {
         h.opts.freedom = h.opts.freedom.max(1);
         h.written = refwriter::write_history(ctx, &h.revisions, &h.opts);
         ctx.count("misdesignated-histories");
+    }
+    // an eighth of the cases: no /Root in any trailer, and several objects that call themselves /Type /Catalog
+    // (a damaged file a reader may try to repair: whatever it does must not depend on who finishes first)
+    if !h.heavy && ctx.chance(W, 1, 8, "rootless") {
+        let mut id = h.revisions.iter().flat_map(|r| r.objects.keys()).map(|k| k.0).max().unwrap_or(0) + 1;
+        for r in h.revisions.iter_mut() {
+            r.trailer.retain(|(k, _)| k != b"Root");
+        }
+        for _ in 0..2 + ctx.draw(W, 3, "catalogs") {
+            let at = ctx.draw(W, h.revisions.len() as u64, "catalog-revision") as usize;
+            h.revisions[at].objects.insert((id, 0), MObj::Dict(vec![(b"Type".to_vec(), MObj::Name(b"Catalog".to_vec())), (b"Nr".to_vec(), MObj::Int(id as i64))]));
+            id += 1 + ctx.draw(W, 3, "catalog-gap") as u32;
+        }
+        h.written = refwriter::write_history(ctx, &h.revisions, &h.opts);
+        ctx.count("rootless-histories-with-several-catalogs");
     }
     let mut images: Vec<(Vec<u8>, &'static str)> = vec![(h.written.bytes.clone(), if h.opts.misdesignate { "misdesignated" } else { "valid" })];
     // fault-corrupted variants
